@@ -37,6 +37,45 @@ def fp(name):
     return get_certificate_fingerprint(cert(name))
 
 
+def twins():
+    """two DIFFERENT certificates (different keys) with the same subject, issuer, serial number and validity"""
+    import datetime
+    import hashlib
+    from cryptography import x509 as cx
+    from cryptography.hazmat.primitives import hashes, serialization
+    from cryptography.hazmat.primitives.asymmetric import ec
+    from cryptography.x509.oid import NameOID
+    out = []
+    name = cx.Name([cx.NameAttribute(NameOID.COMMON_NAME, "twin.example")])
+    t0 = datetime.datetime(2024, 1, 1, tzinfo=datetime.timezone.utc)
+    for _ in range(2):
+        key = ec.generate_private_key(ec.SECP256R1())
+        c = (cx.CertificateBuilder().subject_name(name).issuer_name(name).public_key(key.public_key()).serial_number(4242)
+             .not_valid_before(t0).not_valid_after(t0 + datetime.timedelta(days=36500)).sign(key, hashes.SHA256()))
+        out.append((c, "sha256:" + hashlib.sha256(c.public_bytes(serialization.Encoding.DER)).hexdigest()))
+    return out
+
+
+def fingerprint_cases(d):
+    """the fingerprint is SHA-256 of the certificate's own DER - in any order of calls, for look-alike certificates too"""
+    (c1, want1), (c2, want2) = twins()
+    for order in ((c1, want1, c2, want2), (c2, want2, c1, want1)):
+        a, wa, b, wb = order
+        ga, gb, ga2 = get_certificate_fingerprint(a), get_certificate_fingerprint(b), get_certificate_fingerprint(a)
+        if (ga, gb, ga2) != (wa, wb, wa):
+            return dict(operation="get_certificate_fingerprint on two different certificates with the same issuer, subject and serial number",
+                        violated=f"fingerprints {ga[:20]}.., {gb[:20]}.. - expected the SHA-256 of each certificate's own DER ({wa[:20]}.., {wb[:20]}..)")
+    path = d / "tw.db"
+    if path.exists():
+        path.unlink()
+    db = TOFUDatabase(path)
+    db.trust("twin.example", 1965, c1)
+    got = db.verify("twin.example", 1965, c2)
+    if got != (False, "changed"):
+        return dict(operation="trust(twin.example, cert 1); verify(twin.example, cert 2 = same issuer/serial, other key)", violated=f"verify returned {got!r}: a different certificate was accepted for a pinned host")
+    return None
+
+
 def table(path):
     con = REAL_CONNECT(str(path))
     try:
@@ -401,6 +440,10 @@ def bank(focus=None, seed=0, deep=False):
             got = TOFUDatabase(path).verify("a.example", 1965, cert("A"))
             if got != (False, "changed"):
                 return dict(confirmed=True, input=dict(pinned=near, presented=good, variant=variant), observed=dict(violated=[f"verify returned {got!r} for a pin that differs from the presented fingerprint"]), clause=clause)
+        tried += 1
+        r = fingerprint_cases(d)
+        if r:
+            return dict(confirmed=True, input={k: v for k, v in r.items() if k != "violated"}, observed=dict(violated=[r["violated"]]), clause=clause)
         for hist in itertools.product(OPS2, repeat=2):
             tried += 1
             r = check_history(d, hist)
